@@ -21,7 +21,8 @@ type c13Peer struct {
 	Remote  string `json:"remote"`
 	Local   string `json:"local,omitempty"`
 	Passive bool   `json:"passive"`
-	State   string `json:"state"` // fresh opensent openconfirm est-in est-out held-down deleted readded
+	State   string `json:"state"` // fresh opensent openconfirm est-in est-out est-collision held-down deleted readded
+	ArmD    int64  `json:"arm_d,omitempty"` // est-collision: delay of the peer manager at its collision schedule point
 }
 
 type c13Case struct {
@@ -62,7 +63,7 @@ func c13Admit(c c13Case) (admit bool, target int, why string) {
 		switch p.State {
 		case "opensent", "openconfirm":
 			return false, i, "inbound connection in progress"
-		case "est-in", "est-out":
+		case "est-in", "est-out", "est-collision":
 			return false, i, "session Established"
 		case "held-down", "held-down-2":
 			return false, i, "peer held down"
@@ -91,7 +92,13 @@ func c13Prop(t *testing.T, r *hx.Run) func(c c13Case) hx.Verdict {
 			}
 		}
 		o := world.Run(t, func() {
-			w, err := world.New("10.0.0.1", c.Delays)
+			delays := c.Delays
+			for _, p := range c.Peers {
+				if p.State == "est-collision" && len(delays) == 0 {
+					delays = []int64{0} // installs the schedule-point hook that Arm needs
+				}
+			}
+			w, err := world.New("10.0.0.1", delays)
 			if err != nil {
 				fail("setup", "%v", err)
 				return
@@ -104,7 +111,7 @@ func c13Prop(t *testing.T, r *hx.Run) func(c c13Case) hx.Verdict {
 			}()
 			for i, p := range c.Peers {
 				sp := c13Spec(p, i)
-				if p.State == "est-out" {
+				if p.State == "est-out" || p.State == "est-collision" {
 					w.Net.SetPlans(sp.RemoteAddr(), memnet.DialPlan{Kind: memnet.Accept}, memnet.DialPlan{Kind: memnet.Refuse})
 				}
 				if err := w.AddPeer(sp); err != nil {
@@ -190,6 +197,49 @@ func c13Prop(t *testing.T, r *hx.Run) func(c c13Case) hx.Verdict {
 					}
 					world.Handshake(w, sp, cn, 90, 0x0a000063+uint32(i))
 					ests = append(ests, estConn{i, cn})
+				case "est-collision":
+					// Established through a connection collision: the inbound
+					// connection reaches OpenConfirm (a collision the remote wins) in the
+					// same instant the outbound one is taken on to Established
+					outc := w.DialedConn(p.Remote, 0)
+					if outc == nil {
+						fail("setup", "peer %s did not dial", p.Remote)
+						return
+					}
+					inc := w.Inbound(p.Remote, dst)
+					w.Settle()
+					if len(inc.Snapshot().Bytes()) == 0 {
+						fail("setup-admission", "preparing state est-collision: the inbound connection of peer %s was not served", p.Remote)
+						return
+					}
+					outc.RemoteSend(world.RemoteOpen(sp, outc, 90, 0x0a000063+uint32(i)).Frame(), nil)
+					w.Settle()
+					if p.ArmD > 0 {
+						w.Arm("peer.collision", 0, p.ArmD)
+					}
+					inc.RemoteSend(world.RemoteOpen(sp, inc, 90, 0x0a000063+uint32(i)).Frame(), nil)
+					outc.RemoteSend(wire.Keepalive(), nil)
+					w.Settle()
+					var surv *memnet.Conn
+					for _, cn := range []*memnet.Conn{inc, outc} {
+						if cn.Snapshot().LocalClosed {
+							continue
+						}
+						if surv != nil {
+							fail("setup-collision", "preparing state est-collision: both connections of peer %s are still open", p.Remote)
+							return
+						}
+						surv = cn
+					}
+					if surv == nil {
+						fail("setup-collision", "preparing state est-collision: both connections of peer %s were closed", p.Remote)
+						return
+					}
+					if surv == inc {
+						inc.RemoteSend(wire.Keepalive(), nil)
+						w.Settle()
+					}
+					ests = append(ests, estConn{i, surv})
 				case "deleted", "readded":
 					w.Call("DeletePeer", p.Remote, 10*time.Second, func() { w.Srv.DeletePeer(sp.RemoteAddr()) })
 					if p.State == "readded" {
@@ -316,9 +366,12 @@ func genC13(rt *rapid.T) c13Case {
 				p.Local = pick(rt, "local6", "2001:db8::1", "2001:db8:1::1")
 			}
 		}
-		p.State = pick(rt, "state", "fresh", "fresh", "opensent", "openconfirm", "est-in", "est-out", "held-down", "held-down-2", "deleted", "readded")
-		if p.State == "est-out" && p.Passive {
+		p.State = pick(rt, "state", "fresh", "fresh", "opensent", "openconfirm", "est-in", "est-out", "est-collision", "held-down", "held-down-2", "deleted", "readded")
+		if (p.State == "est-out" || p.State == "est-collision") && p.Passive {
 			p.Passive = false
+		}
+		if p.State == "est-collision" {
+			p.ArmD = pick[int64](rt, "armd", 0, 10, 50, 150)
 		}
 		c.Peers = append(c.Peers, p)
 	}
